@@ -31,7 +31,8 @@ REQUIRED = ["lower_case_key", "duplicate_key", "param_after_notes", "stray_befor
             "stray_after", "missing_semicolon", "bom", "crlf", "short_chart", "file_other_suffix", "version_mixed_case",
             "lower_case_multi_value_key", "long_preamble_before_version", "key_only_param", "corpus_mutation",
             "version_key_spelled_with_escape", "key_only_notes_then_more_parameters",
-            "non_ascii_letter_that_upper_cases_to_ascii_in_key", "version_key_with_dotless_i_or_long_s"]
+            "non_ascii_letter_that_upper_cases_to_ascii_in_key", "version_key_with_dotless_i_or_long_s",
+            "sm_chart_field_framed_by_a_non_ascii_blank"]
 
 FILE_NAMES = ["x.sm", "x.ssc", "x.SM", "x.SsC", "x.txt", "x.sm.bak", ".sm", "noext", "x.v2.ssc", "song.ssc.sm"]
 
@@ -220,6 +221,13 @@ def check(ctx, case):
                 ("SMSimfile(file=iter)", lambda: SMSimfile(file=iter(text.splitlines(keepends=True)), strict=strict), text, "sm"),
                 ("SSCSimfile(file=iter)", lambda: SSCSimfile(file=iter(text.splitlines(keepends=True)), strict=strict), text, "ssc"),
             ]
+            # strict is the second positional parameter of load, loads and open
+            entries += [
+                ("loads(text, strict) positional", lambda: simfile.loads(text, strict), text, "auto"),
+                ("load(StringIO, strict) positional", lambda: simfile.load(io.StringIO(text), strict), text, "auto"),
+                ("open(x.txt, strict) positional", lambda: simfile.open(paths["x.txt"], strict), ftext, "auto"),
+                ("open(x.sm, strict) positional", lambda: simfile.open(paths["x.sm"], strict), ftext, "sm"),
+            ]
             if strict:
                 # the documented default is strict parsing: the same calls without the argument
                 entries += [
@@ -286,6 +294,9 @@ def observe_features(ctx, segs, params, case):
     keys = [k for k, _ in params]
     if any(k != k.upper() for k in keys):
         ctx.feat("lower_case_key")
+    for k, c in params:
+        if k.upper() == "NOTES" and len(c) >= 6 and any(x != x.strip() and x.strip(" \t\r\n\x0b\x0c") != x.strip() for x in c[:6]):
+            ctx.feat("sm_chart_field_framed_by_a_non_ascii_blank")
     if any(ord(ch) > 127 and ch.upper().isascii() for k in keys for ch in k):
         ctx.feat("non_ascii_letter_that_upper_cases_to_ascii_in_key")
     if keys and keys[0].upper() == "VERSION" and not keys[0].isascii():
